@@ -16,6 +16,22 @@ README.md, the class docstrings and the text of property C15 — never from the 
   TDevice            sum_i c_i ((t_opt - T_i)/t_range)^2 + s.p   (T by the documented recurrence; once per slot)
   ADevice            f(s) + s.p  (f rebuilt fresh from the description)
   zero-width slots contribute nothing (formula; and a fresh twin device without those slots costs the same).
+
+Scope notes (read before counting these as evidence):
+  * the ADevice "closed form" compares the code with ITSELF: `f` is rebuilt with the same builder from the same
+    `functions.py` classes, so it only shows that ADevice adds `s.p` to whatever `f` returns.  What the shipped
+    preference functions compute is tied to the model through T2 on `Fn` (`leaf.cost` of ADevice here, `fn.*` in C01/C14).
+  * "slots whose bounds coincide contribute no preference cost" is proved (DK.C15.zero_width_*) and checked (formula,
+    fresh twin) ONLY for the two per-slot curves that have bounds as parameters: the high/low quadratic (IDevice2) and the
+    ABC curve (IDevice), plus their combinator forms through T2.  The other classes have no per-slot bound parameter in
+    their preference cost (CDevice, GDevice, SDevice, TDevice depend on the flow only), so a zero-width slot there
+    contributes whatever the flow pinned in it costs; nothing is claimed for them.
+  * CDevice2 with exactly one cumulative bound over a proper sub-range is an OPEN FINDING.  A failure gets the key
+    {"cls": "CDevice2", "kind": "single-subrange-cbound", "check": <linear-between|antiderivative|end-point>} only when the
+    observed value is what the finding predicts (the curve evaluated at the sum of the WHOLE flow vector); any other
+    deviation in such a device keeps the ordinary kind and is reported as a new violation.
+Generator additions: narrow but NON-degenerate slots / cumulative bands at a large level (1024 and 1024 + 2^-8: narrower
+than numpy's isclose tolerance 1e-8 + 1e-5*|x|), CDevice with slope a = 0 and offset b != 0 (30% of CDevice cases).
 """
 import copy
 from fractions import Fraction
@@ -142,13 +158,14 @@ class C15(Prop):
                  'non-integer IDevice exponents: theorem (generic pow) + oracle, not T2 (the executable model has integer powers)']
 
   def __init__(self):
-    self.stats = {'classes': {}, 'zero_width_cases': 0, 'oracle_only': 0, 'single_subrange': 0, 'endpoint_checks': 0, 'twin_checks': 0}
+    self.stats = {'special': {}, 'classes': {}, 'zero_width_cases': 0, 'oracle_only': 0, 'single_subrange': 0, 'endpoint_checks': 0, 'twin_checks': 0}
 
   # ------------------------------------------------------------------ cases
   def cases(self, rng, tier, count):
     out = []
     for _ in range(count):
       d = gen.gen_leaf(rng, tier)
+      self._special(rng, d)
       mode = rng.choice(['interior', 'mixed', 'mixed', 'onbound', 'lower', 'upper'])
       if mode == 'onbound':
         lb = [F(x) for x in d['lb']]; hb = [F(x) for x in d['hb']]
@@ -163,6 +180,40 @@ class C15(Prop):
         case['oracle_only'] = True
       out.append(case)
     return out
+
+  def _special(self, rng, d):
+    """boundary configurations the plain generator hardly ever draws (in place)."""
+    cls, n = d['cls'], d['n']
+    tiny = Fraction(1, 256)
+    if cls == 'CDevice' and rng.random() < 0.3:
+      d['prm']['a'] = '0'
+      if Fraction(d['prm']['b']) == 0:
+        d['prm']['b'] = fs(rng.choice([-1, 1])*dy(rng, Fraction(1, 4), 2))
+      d['_special'] = 'a=0'
+    elif cls in ('IDevice', 'IDevice2') and rng.random() < 0.15:
+      # some slots narrower than isclose's tolerance at their level, but not zero-width
+      lb = [F(x) for x in d['lb']]; hb = [F(x) for x in d['hb']]
+      ks = [k for k in range(n) if rng.random() < 0.5] or [rng.randrange(n)]
+      for k in ks:
+        lb[k] = 1024 + dy(rng, 0, 4); hb[k] = lb[k] + tiny
+      d['lb'] = [fs(x) for x in lb]; d['hb'] = [fs(x) for x in hb]
+      d['cbs'] = []; d['_py']['cform'] = None
+      d['_py']['bform'] = 'table' if (n == 2 or d['_py'].get('bform') == 'scalar') else d['_py'].get('bform', 'table')
+      d['_special'] = 'narrow-slot'
+    elif cls == 'CDevice2' and rng.random() < 0.2:
+      # one whole-horizon cumulative band of width 2^-8 at a level above 1024
+      lb = [F(x) for x in d['lb']]; hb = [F(x) for x in d['hb']]
+      lb[0] += 1024; hb[0] += 1024
+      if len(set(lb)) > 1 or len(set(hb)) > 1:
+        d['_py']['bform'] = 'table' if (n == 2 or d['_py'].get('bform') == 'scalar') else d['_py'].get('bform', 'table')
+      lo, hi = sum(lb, F(0)), sum(hb, F(0))
+      l = lo + (hi - lo)*Fraction(rng.randint(0, 3), 4)
+      d['lb'] = [fs(x) for x in lb]; d['hb'] = [fs(x) for x in hb]
+      d['cbs'] = [[fs(l), fs(l + tiny), 0, n]]
+      d['_py']['cform'] = rng.choice(['2tuple', '4tuples'])
+      d['_special'] = 'narrow-band'
+    if d.get('_special'):
+      self.stats['special'][d['_special']] = self.stats['special'].get(d['_special'], 0) + 1
 
   def _flows(self, case):
     d = case['dev']
@@ -260,23 +311,31 @@ class C15(Prop):
     if cls == 'CDevice2':
       pl, ph = pf(prm['p_l']), pf(prm['p_h'])
       cbs = [(pf(c[0]), pf(c[1]), int(c[2]), int(c[3])) for c in d['cbs']]
-      kind_prefix = ''
-      if single_subrange(d):
+      sub = single_subrange(d)
+      if sub:
         self.stats['single_subrange'] += 1
-        kind_prefix = 'single-subrange-cbound:'     # open finding, see DK.C15.cdevice2_single_subrange_counterexample
+      def kind_of(check, observed, predicted_by_finding):
+        """open finding (DK.C15.cdevice2_single_subrange_counterexample): the curve is evaluated at the sum of the WHOLE
+        flow vector.  Only an observation equal to that prediction is the known finding; anything else is new."""
+        if sub and close(observed, predicted_by_finding, tol=1e-7):
+          return 'single-subrange-cbound:' + check
+        return check
       s = [pf(x) for x in case['s']]
       g = deriv(case['s'])
+      L0, H0 = cbs[0][0], cbs[0][1]
       for i in range(n):
         m = sum(hl_marginal(pl, ph, l, h, sum(s[a:b])) for (l, h, a, b) in cbs if a <= i < b)
         if not close(g[i] - pv[i], m):
-          fail(kind_prefix + 'linear-between', 'marginal cost (less price) of slot %d at s=%s is %.12g; documented: the curve at the cumulative consumption of the bound(s) covering the slot = %.12g' % (
+          fail(kind_of('linear-between', g[i] - pv[i], hl_marginal(pl, ph, L0, H0, sum(s))),
+               'marginal cost (less price) of slot %d at s=%s is %.12g; documented: the curve at the cumulative consumption of the bound(s) covering the slot = %.12g' % (
             i, case['s'], g[i] - pv[i], m))
           break
       area = sum(hl_area(pl, ph, l, h, sum(lb[a:b]), sum(s[a:b])) for (l, h, a, b) in cbs)
       dl = lin(s) - lin(lb)
       got = cost(case['s']) - cost(d['lb'])
       if not close(got, area + dl, scale=abs(area) + abs(dl)):
-        fail(kind_prefix + 'antiderivative', 'cost(s) - cost(lower bounds) = %.12g, area under the documented marginal cost + price term = %.12g (s=%s)' % (got, area + dl, case['s']))
+        fail(kind_of('antiderivative', got, hl_area(pl, ph, L0, H0, sum(lb), sum(s)) + dl),
+             'cost(s) - cost(lower bounds) = %.12g, area under the documented marginal cost + price term = %.12g (s=%s)' % (got, area + dl, case['s']))
       # flows whose cumulative consumption over a bound's range is exactly the cumulative low / high
       for which, want in ((0, pl), (1, ph)):
         t = list(lb); hit = []
@@ -295,7 +354,8 @@ class C15(Prop):
           self.stats['endpoint_checks'] += 1
           bad = [i for i in range(a, b) if not close(g[i] - pv[i], want, tol=1e-7)]
           if bad:
-            fail(kind_prefix + 'end-point', 'cumulative consumption over slots [%d,%d) at its cumulative %s (flow %s): marginal cost (less price) of slot %d is %.12g, documented %s=%.12g' % (
+            fail(kind_of('end-point', g[bad[0]] - pv[bad[0]], hl_marginal(pl, ph, L0, H0, sum(t))),
+                 'cumulative consumption over slots [%d,%d) at its cumulative %s (flow %s): marginal cost (less price) of slot %d is %.12g, documented %s=%.12g' % (
               a, b, 'low' if which == 0 else 'high', [round(x, 6) for x in t], bad[0], g[bad[0]] - pv[bad[0]], 'p_l' if which == 0 else 'p_h', want))
             break
 
